@@ -294,7 +294,12 @@ func (a *Acc) Done(f Finish) int {
 		fmt.Fprintln(os.Stderr, "harness error:", err)
 		return 3
 	}
-	sort.Slice(a.Violations, func(i, j int) bool { return a.Violations[i].Key < a.Violations[j].Key })
+	sort.Slice(a.Violations, func(i, j int) bool {
+		if len(a.Violations[i].Key) != len(a.Violations[j].Key) {
+			return len(a.Violations[i].Key) < len(a.Violations[j].Key) // shortest counterexample first
+		}
+		return a.Violations[i].Key < a.Violations[j].Key
+	})
 	hit := map[string]int{}
 	var fresh []Violation
 	for _, v := range a.Violations {
